@@ -61,3 +61,18 @@ Theorem C05_full_declarative_mixed_waiting : forall d s p acc egr,
   opt_domain d s p acc egr -> pos_hops_b d = true -> q_fwd p = true -> q_maxfw p <= 0 -> C05_decl d s p acc egr.
 Proof. exact C05_decl_strong. Qed.
 Print Assumptions C05_full_declarative_mixed_waiting.
+
+(* the whole forward scan (entry slot of the hour index + every step) as the source writes it now *)
+Theorem C05_forward_scan_is_code : forall d p k, fwd_scan_code d p k = fwd_scan d p k false.
+Proof. exact fwd_scan_tie. Qed.
+Print Assumptions C05_forward_scan_is_code.
+
+(* the whole reverse scan (entry slot of the hour index + every step) as the source writes it now *)
+Theorem C05_reverse_scan_is_code : forall d p k, rev_scan_code d p k = rev_scan d p k false.
+Proof. exact rev_scan_tie. Qed.
+Print Assumptions C05_reverse_scan_is_code.
+
+From TrV Require Import Proofs.FullStatements.
+Theorem C05_full : C05_full_statement.
+Proof. exact C05_original. Qed.
+Print Assumptions C05_full.
